@@ -69,6 +69,10 @@ type Case struct {
 	PkgOutside bool `json:"pkgoutside,omitempty"`
 	Loaded     bool `json:"loaded,omitempty"`
 	Crash string   `json:"crash,omitempty"`
+	// ArgMod: an argument passed by reference (the rule struct with its
+	// Files / Select / Ignore slices, the elements of a variadic call) that the
+	// call changed: "<what>: <before> -> <after>".
+	ArgMod string `json:"arg_mod,omitempty"`
 }
 
 // ---- enumeration helpers ----
@@ -759,6 +763,12 @@ func runCase(c *Case, scratch string, built map[int]string) {
 	case "abs":
 		c.Out = caco3.VerifMakePath(c.P, c.F)
 	case "src":
+		elemsBefore := fmt.Sprintf("%q", c.Elems)
+		defer func() {
+			if after := fmt.Sprintf("%q", c.Elems); after != elemsBefore {
+				c.ArgMod = "env.src(ps ...string): " + elemsBefore + " -> " + after
+			}
+		}()
 		c.Out = caco3.VerifSrc(c.Dir, c.Elems...)
 		if o := caco3.VerifOut(c.Dir, c.Elems...); o != c.Out {
 			c.Err = "other:src and out differ: " + o
@@ -777,7 +787,11 @@ func runCase(c *Case, scratch string, built map[int]string) {
 			built[c.TreeID] = root
 		}
 		r := &caco3.FileSet{Name: c.Rule.Name, Files: c.Rule.Files, Select: c.Rule.Select, Ignore: c.Rule.Ignore}
+		before := fmt.Sprintf("%q %q %q %q", r.Name, r.Files, r.Select, r.Ignore)
 		name, files, out, err := caco3.VerifFileSet(filepath.Join(root, "src"), c.P, r)
+		if after := fmt.Sprintf("%q %q %q %q", r.Name, r.Files, r.Select, r.Ignore); after != before {
+			c.ArgMod = "newFileSet(*FileSet): " + before + " -> " + after
+		}
 		c.Err = projErr(err)
 		c.Out = name
 		c.Outs = files
